@@ -204,6 +204,11 @@ class Ctx:
     def elapsed(self) -> float:
         return time.time() - self.t0
 
+    def shard_replay_case(self, **info: Any) -> dict:
+        """A replay description that re-runs this whole shard (same seed)."""
+        return {"kind": "__shard__", "idx": self.shard_idx,
+                "spec": getattr(self, "spec", {}), "info": jsonable(info)}
+
     def result(self) -> dict:
         return {
             "name": self.name, "engine": self.engine,
@@ -504,6 +509,7 @@ def shard_main(pid: str, tier: str, spec_file: str, out_file: str) -> int:
     import faulthandler
     faulthandler.enable()
     ctx = Ctx(pid, tier, seed, spec["idx"], spec["name"], engine)
+    ctx.spec = {k: v for k, v in spec.items() if k != "idx"}
     mod = importlib.import_module(f"checks.{pid}")
     try:
         if "replay_case" in spec:
